@@ -402,9 +402,14 @@ Unwind ==
 Out(o) == {x \in Kids(o) : x \in done}
           \cup (IF o \in done /\ Par(o) # 0 THEN {Par(o)} ELSE {})
           \cup {Target(r) : r \in {x \in resolved : Owner(x) = o}}
-          \cup (IF IdxOf(o) = 1 THEN {Root(p[2]) : p \in {q \in linked : q[1] = FileOf(o)}} ELSE {})
-          \* the Import children of a root (not numbered as objects) point back to it
-          \cup (IF IdxOf(o) = 1 /\ File(FileOf(o)).imports # <<>> /\ (alloc \cap ObjsOf(FileOf(o))) # {o}
+          \* import statements (provider of the ImportURI kind): the Import children of a root (not
+          \* numbered as objects) hold the imported models and point back to the root.  With a provider
+          \* that finds the other files by a file pattern (S.prov = "glob") a model holds them only
+          \* through its repository, which the failure handlers empty.
+          \cup (IF IdxOf(o) = 1 /\ S.prov = "uri"
+                THEN {Root(p[2]) : p \in {q \in linked : q[1] = FileOf(o)}} ELSE {})
+          \cup (IF IdxOf(o) = 1 /\ S.prov = "uri" /\ File(FileOf(o)).imports # <<>>
+                   /\ (alloc \cap ObjsOf(FileOf(o))) # {o}
                 THEN {o} ELSE {})
 RECURSIVE Reach(_)
 Reach(T) == LET N == T \cup UNION {Out(x) : x \in T} IN IF N = T THEN T ELSE Reach(N)
